@@ -290,9 +290,16 @@ def write_replay(prop, payload):
 def finish(res, level_text, trusted_base, checker_cmd, assumptions, extra_cov=None):
     """Print verdict lines, write the evidence file, return the exit code."""
     rc = 0
-    # violations with a failing input
+    # violations with a failing input: the property's own oracle fails on the real code.
+    # Disagreements between model and implementation (tags ending in -diff, or the
+    # extraction cross-check) are broken correspondences, not failing inputs of the property.
+    def is_corr(v):
+        return any(t.endswith("-diff") or t == "extraction" for t in v.get("tags", []))
     reported = set()
+    corr = [v for v in res.violations if is_corr(v)]
     for v in res.violations:
+        if is_corr(v):
+            continue
         k = match_known(res.prop, v.get("tags", []))
         if k is not None:
             key = k.get("class")
@@ -303,6 +310,17 @@ def finish(res, level_text, trusted_base, checker_cmd, assumptions, extra_cov=No
             continue
         path = write_replay(res.prop, v)
         print("VIOLATION property=%s replay=%s" % (res.prop, path))
+        rc = 1
+    if corr and rc == 0:
+        # the correspondence no longer checks and the search (every generated case through the
+        # property's oracle on the real code) found no input on which the property itself fails
+        for v in corr[:3]:
+            v = dict(v)
+            v["explanation"] = ("broken correspondence: model and implementation disagree on this input; the property's own "
+                                "oracle held on all %d evaluated cases, so no failing input of the property was found" % res.evaluations)
+            v["broken_obligations"] = [{"name": n, "kind": k, "note": note} for (n, k, ok, note) in res.obligations if not ok]
+            path = write_replay(res.prop, v)
+            print("VIOLATION property=%s replay=%s no-failing-input-found" % (res.prop, path))
         rc = 1
     unknown_viol = rc
     # obligations broken without a failing input
